@@ -1,1 +1,28 @@
-From QV Require Import Base Fields SrcFacts Msg.
+(* Properties_C04.v — end to end, browsers converge to the services actually offered (partial). *)
+From QV Require Import Base Fields SrcFacts Msg SrcDecisions Cache Sim Prober Hostname Provider ProviderSpec Browser BrowserProofs NetProofs.
+Local Open Scope Z_scope.
+
+(* PARTIAL.  The end-to-end statement quantifies over networks, delays, duplications and histories; it is decided on
+   every run on simulated networks of the REAL stacks exchanging packets through the real codec (engine "net"), judged
+   against the ground truth of the script.  What is proved here is the single hop on the tied component models:
+   - the provider's announcement is the response [PTR; SRV; TXT] of its published records;
+   - a browser of that type (or enumerating all types) that holds exactly those records and has not reported the
+     instance reports it as added with the provider's type, name, SRV target, port and (normalised) attributes;
+   together with C01/C02 (the packet decodes to the message sent), C13 (what a listener's cache holds), C05/C06 (cache
+   content = valid records), C14/C15 (removal on goodbye / expiry) these are the steps of the convergence argument in
+   DESIGN.md section 4 (C04); the induction over the network schedule itself is not mechanised. *)
+Theorem C04_announcement_shape_partial p :
+  m_records (announce_msg p) = [pv_ptr p; pv_srv p; pv_txt p] /\ m_response (announce_msg p) = true.
+Proof. exact (announce_records p). Qed.
+Print Assumptions C04_announcement_shape_partial.
+
+Theorem C04_announcement_reported_partial j ptr srv txt (T nm : list N) b :
+  announces ptr srv txt T nm -> index_of DOT nm = None -> T <> [] ->
+  (bs_eqb (b_type b) (Some browse_type) = true \/ b_type b = Some T) ->
+  smap_find (nm ++ DOT :: T) (b_services b) = None ->
+  snd (update_service j [ptr; srv; txt] (Some (nm ++ DOT :: T)) b) =
+  [ESig (N.of_nat j) SIG_serviceAdded
+        (PService (mkService (Some T) (Some nm) (r_target srv) (r_port srv)
+                             (fold_left (fun a kv => attrs_insert (fst kv) (snd kv) a) (r_attrs txt) [])))].
+Proof. exact (announcement_reported j ptr srv txt T nm b). Qed.
+Print Assumptions C04_announcement_reported_partial.
